@@ -27,6 +27,7 @@ type tkHarness struct {
 	fault    string
 	ttNames  map[int64]string
 	lastPath string
+	maxOK    int // the most steps a token-list run that ended has taken on this instance
 }
 
 var tokenizerCtors = map[string][2]string{
@@ -69,6 +70,42 @@ func (h *tkHarness) call(name string, args ...mv) (mv, mOutcome) {
 		return nil, mOutcome{kind: "opaque", why: "method " + name + " not found on " + h.tokT.String()}
 	}
 	return h.m.Call(f, append([]mv{h.tok}, args...)...)
+}
+
+// stateCall invokes a method of one of the tokenizer's states (the value its accessor - WordState,
+// WhitespaceState, SymbolState, ... - returns). "" or why it could not be done.
+func (h *tkHarness) stateCall(state, method string, args ...mv) string {
+	sv, out := h.call(state)
+	if _, isNil := sv.(mNilT); isNil && out.kind == "ok" {
+		return fmt.Sprintf("%s() has no state", state)
+	}
+	si, ok := sv.(mIface)
+	if out.kind != "ok" || !ok {
+		return fmt.Sprintf("%s(): %s %s", state, out.kind, out.why)
+	}
+	f := h.c.lookupMethod(si.t, method)
+	if f == nil {
+		return fmt.Sprintf("%s() has no %s", state, method)
+	}
+	if _, out := h.m.Call(f, append([]mv{si.v}, args...)...); out.kind != "ok" {
+		return fmt.Sprintf("%s().%s: %s %s", state, method, out.kind, out.why)
+	}
+	return ""
+}
+
+// setCharState hands the characters from..to to the state the named accessor returns.
+func (h *tkHarness) setCharState(from, to rune, state string) string {
+	sv, out := h.call(state)
+	if out.kind != "ok" {
+		return fmt.Sprintf("%s(): %s %s", state, out.kind, out.why)
+	}
+	if _, isNil := sv.(mNilT); isNil {
+		return fmt.Sprintf("%s() has no state", state)
+	}
+	if _, out := h.call("SetCharacterState", int64(from), int64(to), sv); out.kind != "ok" {
+		return fmt.Sprintf("SetCharacterState(%#x, %#x, %s()): %s %s", from, to, state, out.kind, out.why)
+	}
+	return ""
 }
 
 func (h *tkHarness) readTokens(v mv) ([]tkTok, string) {
@@ -162,6 +199,9 @@ func (h *tkHarness) tokenizeVia(entry, s string) (mv, tkResult) {
 		r, out = h.call(entry, mIface{t: newScanner.Signature.Results().At(0).Type(), v: sc})
 	}
 	h.lastPath = h.m.recentPath()
+	if out.kind == "ok" && h.m.steps > h.maxOK {
+		h.maxOK = h.m.steps
+	}
 	if out.kind != "ok" {
 		return nil, tkResult{kind: out.kind, why: out.why}
 	}
